@@ -22,6 +22,8 @@ type Ns struct {
 	Name      string            `json:",omitempty"`
 	Labels    map[string]string `json:",omitempty"`
 	HasObject bool
+	// ExplicitNameLabel: the Namespace object carries the (correct) kubernetes.io/metadata.name label itself
+	ExplicitNameLabel bool `json:",omitempty"`
 }
 type CPort struct {
 	Name   string `json:",omitempty"`
@@ -37,6 +39,10 @@ type Workload struct {
 	Replicas       int               // -1 => field absent
 	Labels         map[string]string `json:",omitempty"`
 	Ports          []CPort           `json:",omitempty"`
+	// SplitContainers: the container ports are spread over two containers of the pod template
+	SplitContainers bool `json:",omitempty"`
+	// ObjLabels: labels on the controller object's own metadata (not the pod template) - irrelevant to connectivity
+	ObjLabels map[string]string `json:",omitempty"`
 }
 type IPBlock struct {
 	CIDR   string   `json:",omitempty"`
